@@ -740,7 +740,7 @@ fn check(id: &str, tier: &str) -> i32
         {
             rep.assume("commands are deterministic functions of their declared sources (mini-shell cat); distinct writes carry distinct mtimes (strict clock)");
             let mut plans = vec![];
-            for (sc, q, t) in vec![(scen::s1_chain(), 6, 9), (scen::s3_multi(), 6, 9), (scen::s2_diamond(), 5, 8), (scen::s4_twins(), 5, 8), (scen::s5_variants(), 6, 9), (scen::s8_failures(), 5, 8), (scen::s10_bundle(), 6, 8), (scen::s11_three(), 5, 7), (scen::s16_big(), 4, 6), (scen::s13_binary(), 5, 7), (scen::s18_empty(), 6, 8), (scen::s19_aside(), 8, 10), (scen::s20_dir_source(), 5, 7), (scen::s21_unicode_names(), 5, 7)]
+            for (sc, q, t) in vec![(scen::s1_chain(), 6, 9), (scen::s3_multi(), 6, 9), (scen::s2_diamond(), 5, 8), (scen::s4_twins(), 5, 8), (scen::s5_variants(), 6, 9), (scen::s8_failures(), 5, 8), (scen::s10_bundle(), 6, 8), (scen::s11_three(), 5, 7), (scen::s16_big(), 4, 6), (scen::s13_binary(), 5, 7), (scen::s18_empty(), 6, 8), (scen::s19_aside(), 8, 10), (scen::s20_dir_source(), 5, 7), (scen::s21_unicode_names(), 5, 7), (scen::s22_leaf_becomes_target(), 6, 8)]
             {
                 let mut p = plan(sc, tiered(tier, q, t));
                 p.secs = secs;
@@ -757,7 +757,7 @@ fn check(id: &str, tier: &str) -> i32
         {
             rep.assume("as C01; the must-not-run obligation is asserted only when the harness's own record shows an earlier successful execution on identical sources, the needed contents were in the cache before the build, and no cache content is needed by two targets at once");
             let mut plans = vec![];
-            for (sc, q, t) in vec![(scen::s1_chain(), 6, 9), (scen::s3_multi(), 6, 8), (scen::s2_diamond(), 5, 8), (scen::s4_twins(), 6, 8), (scen::s5_variants(), 6, 9), (scen::s11_three(), 5, 7), (scen::s10_bundle(), 6, 8), (scen::s8_failures(), 5, 7), (scen::s12_multiline_failure(), 4, 6), (scen::s18_empty(), 6, 8), (scen::s19_aside(), 8, 10)]
+            for (sc, q, t) in vec![(scen::s1_chain(), 6, 9), (scen::s3_multi(), 6, 8), (scen::s2_diamond(), 5, 8), (scen::s4_twins(), 6, 8), (scen::s5_variants(), 6, 9), (scen::s11_three(), 5, 7), (scen::s10_bundle(), 6, 8), (scen::s8_failures(), 5, 7), (scen::s12_multiline_failure(), 4, 6), (scen::s18_empty(), 6, 8), (scen::s19_aside(), 8, 10), (scen::s22_leaf_becomes_target(), 6, 8)]
             {
                 let mut p = plan(sc, tiered(tier, q, t));
                 p.secs = secs;
@@ -843,7 +843,7 @@ fn check(id: &str, tier: &str) -> i32
             for clock in [ClockModel::Strict, ClockModel::Coarse]
             {
                 for (sc, q, t) in vec![(scen::s3_c18(), 10, 14), (scen::s4_c18(), 8, 12), (scen::s1_chain(), 6, 8), (scen::s3_multi(), 5, 8),
-                    (scen::s4_twins(), 6, 8), (scen::s5_variants(), 5, 8), (scen::s2_diamond(), 5, 7), (scen::s6_exec(), 6, 9), (scen::s17_c18_failing_twins(), 12, 14)]
+                    (scen::s4_twins(), 6, 8), (scen::s5_variants(), 5, 8), (scen::s2_diamond(), 5, 7), (scen::s6_exec(), 6, 9), (scen::s17_c18_failing_twins(), 12, 14), (scen::s19_aside(), 8, 10)]
                 {
                     let saturating = sc.name.ends_with("-c18") || sc.name.starts_with("S17-c18");
                     let mut p = plan(sc, tiered(tier, q, t));
@@ -894,6 +894,7 @@ fn check(id: &str, tier: &str) -> i32
                 p.secs = secs;
                 plans.push(p);
             }
+
             run_hist_plans(&mut rep, id, plans);
         },
         "C05" =>
